@@ -848,27 +848,28 @@ Section PlainMap.
   Qed.
 End PlainMap.
 
-Theorem explode_resolves fuel : forall d, merge_simple_doc fuel d = true ->
-  (forall d' v, explode fuel d = ROk d' -> resolve fuel d = Some v -> veq (value_of d') v)
-  /\ (forall a tes, explode fuel d = ROk (Mp a tes) -> NoDup (keys tes)).
+Theorem explode_resolves fe : forall fs d, merge_simple_doc fs d = true ->
+  (forall d' v, explode fe d = ROk d' -> resolve fs d = Some v -> veq (value_of d') v)
+  /\ (forall a tes, explode fe d = ROk (Mp a tes) -> NoDup (keys tes)).
 Proof.
-  induction fuel as [|f IHf]; intros d Hd; [discriminate|].
-  assert (IH1 : forall t t' v, merge_simple_doc f t = true -> explode f t = ROk t' -> resolve f t = Some v -> veq (value_of t') v)
-    by (intros t t' v Ht; apply (IHf t Ht)).
-  assert (IH2 : forall t a tes, merge_simple_doc f t = true -> explode f t = ROk (Mp a tes) -> NoDup (keys tes))
-    by (intros t a tes Ht; apply (IHf t Ht)).
+  induction fe as [|f IHf]; intros fs d Hd; [split; intros; discriminate|].
+  destruct fs as [|g]; [discriminate|].
+  assert (IH1 : forall t t' v, merge_simple_doc g t = true -> explode f t = ROk t' -> resolve g t = Some v -> veq (value_of t') v)
+    by (intros t t' v Ht; apply (IHf g t Ht)).
+  assert (IH2 : forall t a tes, merge_simple_doc g t = true -> explode f t = ROk (Mp a tes) -> NoDup (keys tes))
+    by (intros t a tes Ht; apply (IHf g t Ht)).
   cbn [merge_simple_doc explode resolve] in *.
   destruct d as [a s|a l|a es|t]; cbn [dom_step explode_step resolve_step] in *.
   - split; [|discriminate]. intros d' v H1 H2. injection H1 as <-. injection H2 as <-. constructor.
   - split; [|intros a0 tes H; apply rbind_ok in H as (l' & _ & H); discriminate].
     intros d' v H1 H2. apply rbind_ok in H1 as (l' & Hl & H1). injection H1 as <-.
-    destruct (all_some (map (resolve f) l)) as [lv|] eqn:E; cbn [option_map] in H2; [|discriminate]. injection H2 as <-.
+    destruct (all_some (map (resolve g) l)) as [lv|] eqn:E; cbn [option_map] in H2; [|discriminate]. injection H2 as <-.
     cbn [value_of]. constructor. eapply map_res_veq; eassumption.
   - destruct (has_merge es) eqn:Hm.
     + split.
       * intros d' v H1 H2. apply rbind_ok in H1 as (es' & He & H1). injection H1 as <-.
         rewrite value_of_map.
-        exact (map_merge_level (explode f) (resolve f) (merge_simple_doc f) IH1 (explode_clean f) (explode_clean_id f) IH2
+        exact (map_merge_level (explode f) (resolve g) (merge_simple_doc g) IH1 (explode_clean f) (explode_clean_id f) IH2
                  a es es' v Hd Hm He H2).
       * intros a0 tes H. apply rbind_ok in H as (es' & He & H). injection H as _ <-.
         eapply recon_nodup; [|exact He]. constructor.
@@ -885,7 +886,7 @@ Proof.
         rewrite F1, F2 in H2. cbn [map all_some concat] in H2.
         destruct (all_some _) as [ex|] eqn:E; [|discriminate]. injection H2 as <-. rewrite app_nil_r.
         rewrite value_of_map. constructor.
-        eapply (map_entries_veq (explode f) (resolve f) (merge_simple_doc f) IH1); [| exact He | exact E].
+        eapply (map_entries_veq (explode f) (resolve g) (merge_simple_doc g) IH1); [| exact He | exact E].
         intros kv Hkv. rewrite forallb_forall in Hdm. specialize (Hdm kv Hkv). rewrite (Hall kv Hkv) in Hdm. exact Hdm.
       * intros a0 tes H. apply rbind_ok in H as (es' & He & H). injection H as _ <-.
         rewrite (map_entries_keys _ _ _ He). apply nodupb_NoDup, Hnodup.
@@ -893,9 +894,9 @@ Proof.
 Qed.
 
 (* the JSON conversion (explode, then encode) of a document of the domain is its spec resolution *)
-Theorem explode_is_resolve fuel d d' v :
-  merge_simple_doc fuel d = true -> explode fuel d = ROk d' -> resolve fuel d = Some v -> veq (value_of d') v.
-Proof. intros Hd. apply (explode_resolves fuel d Hd). Qed.
+Theorem explode_is_resolve fe fs d d' v :
+  merge_simple_doc fs d = true -> explode fe d = ROk d' -> resolve fs d = Some v -> veq (value_of d') v.
+Proof. intros Hd. apply (explode_resolves fe fs d Hd). Qed.
 
 (* ================================================================== *)
 (* 7. route 1: traversal of the un-exploded document finds the node    *)
@@ -924,7 +925,7 @@ Proof.
       assert (Hsrc : forall item es0, source_entries (resolve f) item = Some es0 -> forall k0, In k0 (map fst es0) -> is_merge k0 = false).
       { intros item es0 H0 k0 Hk0. destruct item as [a0 s0|a0 l0|a0 es1|t0]; cbn [source_entries] in H0; try discriminate.
         destruct (resolve f t0) as [[s1|l1|es2]|] eqn:E; try discriminate. injection H0 as <-. eapply IH; eassumption. }
-      assert (Hms : forall kv b, merge_sources (resolve f) (snd kv) = Some b -> forall k0, In k0 (map fst b) -> is_merge k0 = false).
+      assert (Hms : forall (kv : str * node) b, merge_sources (resolve f) (snd kv) = Some b -> forall k0, In k0 (map fst b) -> is_merge k0 = false).
       { intros kv b Hb k0 Hk0. destruct (snd kv) as [a0 s0|a0 items|a0 es1|t0]; cbn [merge_sources] in Hb;
           try (eapply Hsrc; eassumption).
         destruct (all_some (map (source_entries (resolve f)) items)) as [bs|] eqn:Eb; cbn [option_map] in Hb; [|discriminate].
@@ -957,4 +958,272 @@ Proof.
   - apply str_eqb_eq in E. subst k'. rewrite IH by (try assumption; intros kv Hkv; apply Hm; right; exact Hkv).
     rewrite (lookup_entry_none _ _ Hnotin). reflexivity.
   - apply IH; [intros kv Hkv; apply Hm; right; exact Hkv | assumption].
+Qed.
+
+(* the traversal found a node whose resolution is x *)
+Definition found (o : option node) (x : value) : Prop :=
+  exists n g, o = Some n /\ merge_simple_doc g n = true /\ resolve g n = Some x.
+
+Definition look_ok (o acc : option node) (ox : option value) : Prop :=
+  match ox with Some x => found o x | None => o = acc end.
+
+Section LookLevel.
+  Variable rs : node -> option value.
+  Variable dm : node -> bool.
+  Hypothesis HE : forall v x, dm v = true -> rs v = Some x -> exists g, merge_simple_doc g v = true /\ resolve g v = Some x.
+  Hypothesis HT : forall a tes ves, dm (Mp a tes) = true -> rs (Mp a tes) = Some (VM ves) ->
+      forall F k acc o, is_merge k = false -> tlook F k tes acc = ROk o -> look_ok o acc (vlookup k ves).
+
+  Lemma merge_phase_look F k : is_merge k = false -> forall ts vss,
+    Forall2 (fun t ves => rs t = Some (VM ves) /\ dm t = true /\ is_mp t = true) ts vss ->
+    length (filter (fun ves => mem k (map fst ves)) vss) <= 1 ->
+    forall acc o, tmerge_list (tlook F) k (map Al ts) acc = ROk o -> look_ok o acc (vlookup k (concat vss)).
+  Proof.
+    intros Hk ts vss HF. induction HF as [|t0 ves0 l r (Hr0 & Hd0 & Hm0) HF IHF]; intros Hc acc o H.
+    - cbn in H. injection H as <-. reflexivity.
+    - cbn [map tmerge_list] in H. apply rbind_ok in H as (o0 & H0 & H).
+      destruct t0 as [a0 s0|a0 l0|a0 tes0|t0']; try discriminate. cbn [tmerge] in H0.
+      pose proof (HT a0 tes0 ves0 Hd0 Hr0 F k acc o0 Hk H0) as L0.
+      cbn [filter] in Hc. cbn [concat]. rewrite vlookup_app.
+      destruct (vlookup k ves0) as [x|] eqn:E0.
+      + assert (mem k (map fst ves0) = true) as Hm by (apply mem_in; eapply vlookup_in, E0).
+        rewrite Hm in Hc. cbn [length] in Hc.
+        assert (Hnil : filter (fun ves => mem k (map fst ves)) r = []) by (destruct (filter _ r); [reflexivity | cbn in Hc; lia]).
+        assert (Hrest : vlookup k (concat r) = None).
+        { apply vlookup_concat_all_none. intros s Hs. pose proof (filter_nil_forall _ _ Hnil s Hs) as Hf.
+          destruct (vlookup k s) as [y|] eqn:Ey; [|reflexivity]. apply vlookup_in, mem_in in Ey. congruence. }
+        assert (Hc' : length (filter (fun ves => mem k (map fst ves)) r) <= 1) by (rewrite Hnil; cbn; lia).
+        specialize (IHF Hc' o0 o H). rewrite Hrest in IHF. cbn [look_ok] in IHF. subst o. exact L0.
+      + cbn [look_ok] in L0. subst o0.
+        assert (Hc' : length (filter (fun ves => mem k (map fst ves)) r) <= 1).
+        { destruct (mem k (map fst ves0)); cbn [length] in Hc; lia. }
+        exact (IHF Hc' acc o H).
+  Qed.
+
+  Theorem tlook_level a es vs :
+    map_ok dm rs es = true -> resolve_step rs (Mp a es) = Some (VM vs) ->
+    forall F k acc o, is_merge k = false -> tlook F k es acc = ROk o -> look_ok o acc (vlookup k vs).
+  Proof.
+    intros Hok Hres F k acc o Hk Hlook.
+    destruct F as [|F]; cbn [tlook] in Hlook; [discriminate|].
+    unfold map_ok in Hok. apply andb_true_iff in Hok as [Hok Hbm]. apply andb_true_iff in Hok as [Hnodup Hdm].
+    apply nodupb_NoDup in Hnodup. rewrite forallb_forall in Hdm.
+    assert (Hexp : forall (X : entries) ex, (forall kv, In kv X -> In kv es) -> (forall kv, In kv X -> is_merge (fst kv) = false) ->
+              all_some (map (fun kv => option_map (fun v => (fst kv, v)) (rs (snd kv))) X) = Some ex ->
+              forall v, lookup_entry k X = Some v -> exists x, vlookup k ex = Some x /\ found (Some v) x).
+    { intros X ex Hsub Hnm Hex v Hv. destruct (spec_explicit_lookup rs k X ex Hex) as [H1 H2].
+      destruct (H2 v Hv) as (x & Hx). exists x. rewrite H1, Hv. split; [exact Hx|].
+      assert (Hin : In (k, v) X).
+      { clear - Hv. induction X as [|[k' v'] r IHr]; cbn [lookup_entry] in Hv; [discriminate|].
+        destruct (str_eqb k k') eqn:E; [injection Hv as <-; apply str_eqb_eq in E; subst; left; reflexivity | right; apply IHr, Hv]. }
+      pose proof (Hdm _ (Hsub _ Hin)) as Hd. pose proof (Hnm _ Hin) as Hf. cbn [fst snd] in Hd, Hf. rewrite Hf in Hd.
+      destruct (HE v x Hd Hx) as (g & Hg1 & Hg2). exists v, g. repeat split; assumption. }
+    cbn [resolve_step] in Hres.
+    destruct (before_merge es) as [[pre mv]|] eqn:Ebm.
+    - destruct (before_merge_split _ _ _ Ebm) as (mk & post & Hes & Hmk & Hpre).
+      apply is_merge_eq in Hmk. subst mk.
+      destruct (merge_targets mv) as [ts|] eqn:Ets; [|discriminate].
+      apply andb_true_iff in Hbm as [Hbm Hrk]. apply andb_true_iff in Hbm as [Hmp Hdts].
+      destruct (all_some (map (resolved_keys rs) ts)) as [rks|] eqn:Erks; [|discriminate].
+      apply andb_true_iff in Hrk as [Hpd Hprek].
+      assert (Hkeys : keys es = keys pre ++ merge_key :: keys post).
+      { rewrite Hes. unfold keys. rewrite map_app. reflexivity. }
+      rewrite Hkeys in Hnodup.
+      assert (Hpost : forall kv, In kv post -> is_merge (fst kv) = false).
+      { intros [k0 v0] Hin. cbn [fst]. destruct (is_merge k0) eqn:E; [|reflexivity]. exfalso.
+        apply is_merge_eq in E. subst k0. apply NoDup_app_r in Hnodup. inversion Hnodup as [|? ? Hn _]; subst.
+        apply Hn. apply in_map_iff. exists (merge_key, v0). split; [reflexivity | exact Hin]. }
+      assert (Hnd_post : NoDup (keys post)) by (apply NoDup_app_r in Hnodup; inversion Hnodup; assumption).
+      assert (Hnd_pre : NoDup (keys pre)) by (eapply NoDup_app_l, Hnodup).
+      rewrite Hes in Hres. rewrite !filter_app in Hres. cbn [filter fst] in Hres.
+      assert (Hmkt : is_merge merge_key = true) by reflexivity. rewrite Hmkt in Hres. cbn [negb] in Hres.
+      assert (Ffn : forall X : entries, (forall kv, In kv X -> is_merge (fst kv) = false) ->
+                filter (fun kv => negb (is_merge (fst kv))) X = X /\ filter (fun kv => is_merge (fst kv)) X = []).
+      { intros X HX. induction X as [|kv X' IHX]; [split; reflexivity|]. cbn [filter].
+        rewrite (HX kv (or_introl eq_refl)). cbn [negb].
+        destruct (IHX (fun kv' Hkv' => HX kv' (or_intror Hkv'))) as [-> ->]. split; reflexivity. }
+      destruct (Ffn pre Hpre) as [Fp1 Fp2]. destruct (Ffn post Hpost) as [Fq1 Fq2].
+      rewrite Fp1, Fp2, Fq1, Fq2 in Hres. cbn [app map all_some snd] in Hres.
+      destruct (all_some (map _ (pre ++ post))) as [ex|] eqn:Eex; [|discriminate].
+      destruct (merge_sources rs mv) as [ms|] eqn:Ems; [|discriminate].
+      injection Hres as <-. cbn [concat]. rewrite app_nil_r.
+      destruct (spec_merge_sources rs mv ts ms Ets Ems) as (vss & Hvss & ->).
+      (* the traversal *)
+      rewrite Hes in Hlook. rewrite tlook_step_app in Hlook. apply rbind_ok in Hlook as (o1 & H1 & Hlook).
+      rewrite (tlook_step_explicit _ _ _ Hpre Hnd_pre) in H1. injection H1 as <-.
+      cbn [tlook_step] in Hlook. rewrite Hmkt, Hk in Hlook. cbn [andb negb] in Hlook.
+      apply rbind_ok in Hlook as (o2 & H2 & H3).
+      rewrite (tlook_step_explicit _ _ _ Hpost Hnd_post) in H3. injection H3 as <-.
+      (* targets *)
+      assert (Hal : Forall2 (fun t ves => rs t = Some (VM ves) /\ dm t = true /\ is_mp t = true) ts vss).
+      { eapply Forall2_impl_in; [exact Hvss|]. intros t ves Hin Hr. rewrite forallb_forall in Hmp, Hdts.
+        split; [exact Hr|]. split; [apply Hdts, Hin | apply Hmp, Hin]. }
+      assert (Hrks : rks = map (map fst) vss).
+      { apply all_some_Forall2 in Erks. clear - Erks Hvss. revert rks Erks.
+        induction Hvss as [|t ves l r Hr HF IHF]; intros rks Erks; inversion Erks as [|? rk ? rks' Hrk HF']; subst; [reflexivity|].
+        cbn [map]. unfold resolved_keys in Hrk. rewrite Hr in Hrk. injection Hrk as <-. f_equal. apply IHF, HF'. }
+      assert (Hcount : length (filter (fun ves => mem k (map fst ves)) vss) <= 1).
+      { pose proof (pairwise_disjoint_count k rks Hpd) as Hc. rewrite Hrks in Hc.
+        clear - Hc. induction vss as [|ves r IHr]; [cbn; lia|]. cbn [map filter] in *.
+        destruct (mem k (map fst ves)); cbn [length] in *; [|apply IHr, Hc].
+        assert (length (filter (mem k) (map (map fst) r)) = length (filter (fun ves => mem k (map fst ves)) r)) as <-; [|exact Hc].
+        clear. induction r as [|x r IHr]; [reflexivity|]. cbn [map filter]. destruct (mem k (map fst x)); cbn [length]; rewrite IHr; reflexivity. }
+      assert (L2 : look_ok o2 (match lookup_entry k pre with Some v => Some v | None => acc end) (vlookup k (concat vss))).
+      { destruct mv as [a0 s|a0 items|a0 es0|t]; cbn [merge_targets] in Ets; try discriminate.
+        - apply alias_targets_items in Ets. subst items. rewrite tmerge_seq in H2.
+          eapply merge_phase_look; eassumption.
+        - injection Ets as <-. inversion Hal as [|? ves0 ? ? (Hr0 & Hd0 & Hm0) HF0]; subst. inversion HF0; subst.
+          cbn [concat]. rewrite app_nil_r.
+          destruct t as [a1 s1|a1 l1|a1 tes1|t1]; try discriminate. cbn [tmerge] in H2.
+          eapply HT; eassumption. }
+      rewrite vlookup_app.
+      destruct (spec_explicit_lookup rs k (pre ++ post) ex Eex) as [Hex _]. rewrite lookup_entry_app in Hex.
+      assert (Hsub_all : forall kv, In kv (pre ++ post) -> In kv es).
+      { intros kv Hin. rewrite Hes. apply in_app_or in Hin as [Hin|Hin]; apply in_or_app; [left | right; right]; exact Hin. }
+      assert (Hnm_all : forall kv, In kv (pre ++ post) -> is_merge (fst kv) = false).
+      { intros kv Hin. apply in_app_or in Hin as [Hin|Hin]; [apply Hpre | apply Hpost]; exact Hin. }
+      destruct (lookup_entry k post) as [vq|] eqn:Eq.
+      + assert (Hpn : lookup_entry k pre = None).
+        { apply lookup_entry_none. intro Hin. eapply NoDup_app_disj; [exact Hnodup | exact Hin|].
+          right. eapply lookup_entry_in, Eq. }
+        destruct (Hexp (pre ++ post) ex Hsub_all Hnm_all Eex vq) as (x & Hx & Hf).
+        { rewrite lookup_entry_app, Hpn. exact Eq. }
+        rewrite Hx. exact Hf.
+      + destruct (lookup_entry k pre) as [vp|] eqn:Ep.
+        * destruct (Hexp (pre ++ post) ex Hsub_all Hnm_all Eex vp) as (x & Hx & Hf).
+          { rewrite lookup_entry_app, Ep. reflexivity. }
+          rewrite Hx.
+          (* no merged map provides k *)
+          assert (Hnone : vlookup k (concat vss) = None).
+          { apply vlookup_concat_all_none. intros ves Hv.
+            destruct (vlookup k ves) as [y|] eqn:Ey; [|reflexivity]. exfalso.
+            rewrite forallb_forall in Hprek. specialize (Hprek k (lookup_entry_in _ _ _ Ep)). rewrite forallb_forall in Hprek.
+            assert (In (map fst ves) rks) by (rewrite Hrks; apply in_map, Hv).
+            specialize (Hprek _ H). apply negb_true_iff in Hprek. apply vlookup_in, mem_in in Ey. congruence. }
+          rewrite Hnone in L2. cbn [look_ok] in L2. subst o2. exact Hf.
+        * rewrite Hex. exact L2.
+    - (* no merge key *)
+      pose proof (before_merge_none _ Ebm) as Hhm. pose proof (has_merge_false_all _ Hhm) as Hall.
+      assert (F1 : filter (fun kv => negb (is_merge (fst kv))) es = es).
+      { clear - Hall. induction es as [|kv r IHr]; [reflexivity|]. cbn [filter]. rewrite (Hall kv (or_introl eq_refl)). cbn [negb].
+        f_equal. apply IHr. intros kv' H. apply Hall. right. exact H. }
+      assert (F2 : filter (fun kv => is_merge (fst kv)) es = []).
+      { clear - Hall. induction es as [|kv r IHr]; [reflexivity|]. cbn [filter]. rewrite (Hall kv (or_introl eq_refl)).
+        apply IHr. intros kv' H. apply Hall. right. exact H. }
+      rewrite F1, F2 in Hres. cbn [map all_some concat] in Hres.
+      destruct (all_some _) as [ex|] eqn:Eex; [|discriminate]. injection Hres as <-. rewrite app_nil_r.
+      rewrite (tlook_step_explicit _ _ _ Hall Hnodup) in Hlook. injection Hlook as <-.
+      destruct (lookup_entry k es) as [v|] eqn:Ev.
+      + destruct (Hexp es ex (fun kv H => H) Hall Eex v Ev) as (x & Hx & Hf). rewrite Hx. exact Hf.
+      + destruct (spec_explicit_lookup rs k es ex Eex) as [H1 _]. rewrite H1, Ev. reflexivity.
+  Qed.
+End LookLevel.
+
+Theorem tlook_domain f : forall a es vs,
+  merge_simple_doc (S f) (Mp a es) = true -> resolve (S f) (Mp a es) = Some (VM vs) ->
+  forall F k acc o, is_merge k = false -> tlook F k es acc = ROk o -> look_ok o acc (vlookup k vs).
+Proof.
+  induction f as [|f IHf]; intros a es vs Hd Hr; cbn [merge_simple_doc dom_step resolve] in Hd, Hr.
+  - eapply (tlook_level (resolve 0) (merge_simple_doc 0)); [| | exact Hd | exact Hr]; intros; discriminate.
+  - eapply (tlook_level (resolve (S f)) (merge_simple_doc (S f))); [| | exact Hd | exact Hr].
+    + intros v x Hv Hx. exists (S f). split; assumption.
+    + intros a0 tes ves Hd0 Hr0. eapply IHf; eassumption.
+Qed.
+
+Lemma resolve_step_map_inv rs a es v : resolve_step rs (Mp a es) = Some v -> exists vs, v = VM vs.
+Proof.
+  cbn [resolve_step]. destruct (all_some _); [|discriminate]. destruct (all_some _); [|discriminate].
+  intros H. injection H as <-. eexists. reflexivity.
+Qed.
+
+Lemma follow_domain d : forall f v, merge_simple_doc f d = true -> resolve f d = Some v ->
+  exists g, merge_simple_doc g (follow d) = true /\ resolve g (follow d) = Some v /\ (forall t, follow d <> Al t).
+Proof.
+  induction d as [a s|a l _|a es _|t IH] using node_ind'; intros f v Hd Hr; cbn [follow].
+  - exists f. repeat split; try assumption. discriminate.
+  - exists f. repeat split; try assumption. discriminate.
+  - exists f. repeat split; try assumption. discriminate.
+  - destruct f as [|f]; [discriminate|]. cbn [merge_simple_doc dom_step resolve resolve_step] in Hd, Hr. eapply IH; eassumption.
+Qed.
+
+Lemma nth_aligned (rs : node -> option value) (dm : node -> bool) l : forall lv i x,
+  forallb dm l = true -> all_some (map rs l) = Some lv -> nth_error lv i = Some x ->
+  exists n, nth_error l i = Some n /\ dm n = true /\ rs n = Some x.
+Proof.
+  induction l as [|y r IH]; intros lv i x Hd Hs Hn; cbn [map all_some forallb] in Hd, Hs.
+  - injection Hs as <-. destruct i; discriminate.
+  - apply andb_true_iff in Hd as [Hdy Hdr]. destruct (rs y) as [vy|] eqn:Ey; [|discriminate].
+    destruct (all_some (map rs r)) as [lv'|] eqn:E; [|discriminate]. injection Hs as <-.
+    destruct i as [|i]; cbn [nth_error] in Hn |- *.
+    + injection Hn as <-. exists y. repeat split; assumption.
+    + eapply IH; [exact Hdr | reflexivity | exact Hn].
+Qed.
+
+(* route 1, all paths: the node reached is the one whose resolution the spec reads at that path *)
+Theorem traverse_domain p : forall d f v F r x,
+  merge_simple_doc f d = true -> resolve f d = Some v ->
+  traverse F d p = ROk r -> vget p v = Some x ->
+  exists n g, r = TNode n /\ merge_simple_doc g n = true /\ resolve g n = Some x.
+Proof.
+  induction p as [|s p IH]; intros d f v F r x Hd Hr Ht Hg.
+  - cbn in Ht, Hg. injection Ht as <-. injection Hg as <-. exists d, f. repeat split; assumption.
+  - cbn [traverse] in Ht. apply rbind_ok in Ht as (r1 & Hs & Ht).
+    destruct (follow_domain d f v Hd Hr) as (g & Hdg & Hrg & Hnal).
+    unfold traverse_step in Hs.
+    destruct g as [|g]; [discriminate|].
+    destruct (follow d) as [a0 s0|a0 l|a0 es|t0] eqn:Ef; [| | |exfalso; exact (Hnal t0 eq_refl)].
+    + (* scalar: the spec has nothing below it *)
+      cbn [resolve resolve_step] in Hrg. injection Hrg as <-. destruct s; cbn in Hg; discriminate.
+    + cbn [resolve resolve_step merge_simple_doc dom_step] in Hrg, Hdg.
+      destruct (all_some (map (resolve g) l)) as [lv|] eqn:E; cbn [option_map] in Hrg; [|discriminate]. injection Hrg as <-.
+      destruct s as [k|i]; cbn [vget] in Hg; [discriminate|].
+      destruct (nth_error lv i) as [x1|] eqn:En; [|discriminate].
+      destruct (nth_aligned (resolve g) (merge_simple_doc g) l lv i x1 Hdg E En) as (n1 & Hn1 & Hd1 & Hr1).
+      injection Hs as <-. rewrite Hn1 in Ht. eapply IH; eassumption.
+    + pose proof Hrg as Hrg'. cbn [resolve] in Hrg'. destruct (resolve_step_map_inv _ _ _ _ Hrg') as (vs & ->).
+      destruct s as [k|i]; cbn [vget] in Hg; [|discriminate].
+      destruct (vlookup k vs) as [x1|] eqn:El; [|discriminate].
+      assert (Hk : is_merge k = false) by (eapply resolve_no_merge_key; [exact Hrg | eapply vlookup_in, El]).
+      apply rbind_ok in Hs as (o & Ho & Hs). injection Hs as <-.
+      pose proof (tlook_domain g a0 es vs Hdg Hrg F k None o Hk Ho) as L. rewrite El in L.
+      destruct L as (n1 & g1 & -> & Hd1 & Hr1). eapply IH; eassumption.
+Qed.
+
+(* ================================================================== *)
+(* 8. the routes against the spec, all documents of the domain, all paths *)
+(* ================================================================== *)
+Lemma Forall2_nth {A B : Type} (R : A -> B -> Prop) l r : Forall2 R l r -> forall i y, nth_error r i = Some y ->
+  exists x, nth_error l i = Some x /\ R x y.
+Proof.
+  induction 1 as [|a b l r Hab HF IHF]; intros i y Hn; [destruct i; discriminate|].
+  destruct i as [|i]; cbn [nth_error] in *; [injection Hn as <-; exists a; split; [reflexivity | exact Hab] | apply IHF, Hn].
+Qed.
+
+Lemma vget_veq p : forall v1 v2 x, veq v1 v2 -> vget p v2 = Some x -> exists x1, vget p v1 = Some x1 /\ veq x1 x.
+Proof.
+  induction p as [|s p IH]; intros v1 v2 x Hv Hg.
+  - cbn in Hg. injection Hg as <-. exists v1. split; [reflexivity | exact Hv].
+  - destruct s as [k|i]; cbn [vget] in Hg.
+    + destruct v2 as [s2|l2|es2]; try discriminate. inversion Hv as [| |es1 ? Hall]; subst.
+      destruct (vlookup k es2) as [y|] eqn:E; [|discriminate].
+      specialize (Hall k). rewrite E in Hall. apply orel_some_r in Hall as (y1 & Hy1 & Hyy).
+      cbn [vget]. rewrite Hy1. eapply IH; eassumption.
+    + destruct v2 as [s2|l2|es2]; try discriminate. inversion Hv as [|l1 ? HF|]; subst.
+      destruct (nth_error l2 i) as [y|] eqn:E; [|discriminate].
+      destruct (Forall2_nth _ _ _ HF i y E) as (y1 & Hy1 & Hyy).
+      cbn [vget]. rewrite Hy1. eapply IH; eassumption.
+Qed.
+
+Theorem routes_agree_on_domain fs d v p x :
+  merge_simple_doc fs d = true -> resolve fs d = Some v -> vget p v = Some x ->
+  (* route 1: traversal of the un-exploded document, then the printer's explode of the result *)
+  (forall F r, traverse F d p = ROk r ->
+     exists n, r = TNode n /\ forall fe n', explode fe n = ROk n' -> veq (value_of n') x)
+  (* routes 2 / 3: the exploded document, read at the same path *)
+  /\ (forall fe d', explode fe d = ROk d' -> exists x1, vget p (value_of d') = Some x1 /\ veq x1 x).
+Proof.
+  intros Hd Hr Hg. split.
+  - intros F r Ht. destruct (traverse_domain p d fs v F r x Hd Hr Ht Hg) as (n & g & -> & Hdn & Hrn).
+    exists n. split; [reflexivity|]. intros fe n' He. eapply explode_is_resolve; eassumption.
+  - intros fe d' He. eapply vget_veq; [eapply explode_is_resolve; eassumption | exact Hg].
 Qed.
